@@ -9,7 +9,9 @@ CONSTANTS
   BigKeys = {4}
   Wraps = {0, 1}
   Kinds = {"A", "M", "C"}
+  Types = {43, 44, 45, 107, 108}
   Persist = TRUE
   EmitDepth = 80
+  RareOff = FALSE
 INVARIANTS LiveClosed ParentsAgree EmitWalk
 CHECK_DEADLOCK FALSE
